@@ -503,6 +503,7 @@ type LoopSpec struct {
 }
 
 type SiteSpec struct {
+	Optional bool
 	Pattern string // e.g. "call os.Rename#0"
 	Asserts []Clause
 	Ghost   []GhostUpd
@@ -854,6 +855,13 @@ func (cs *ContractSet) loadContractFile(path, pkgPath string) error {
 				}
 				pat := strings.TrimSpace(rest[:idx])
 				body := strings.TrimSpace(rest[idx+len(what)+2:])
+				// `at optional PATTERN ...`: the site need not exist (used to account for calls
+				// that must not occur, e.g. summing all additions to a counter)
+				optional := false
+				if strings.HasPrefix(pat, "optional ") {
+					optional = true
+					pat = strings.TrimSpace(strings.TrimPrefix(pat, "optional "))
+				}
 				var ss *SiteSpec
 				for _, s := range cur.Sites {
 					if s.Pattern == pat {
@@ -863,6 +871,9 @@ func (cs *ContractSet) loadContractFile(path, pkgPath string) error {
 				if ss == nil {
 					ss = &SiteSpec{Pattern: pat}
 					cur.Sites = append(cur.Sites, ss)
+				}
+				if optional {
+					ss.Optional = true
 				}
 				if what == "assert" {
 					c, err := mkClause(body, ln.no)
